@@ -189,7 +189,8 @@ ESC = ["C:" + BS + "dir" + BS,  # ends in one backslash
        "end" + BS + DQ,  # ... at the end
        "w" + BS * 2 + DQ,  # two backslashes then quote
        DQ, "a" + DQ + "b" + DQ + "c",  # lone quote, two quotes
-       "q" + DQ + ", ", DQ + "}", DQ + ": ", DQ + "]"]  # a quote followed by structural characters
+       "q" + DQ + ", ", DQ + "}", DQ + ": ", DQ + "]",  # a quote followed by structural characters
+       ""]  # the zero-length literal: opening and closing quote adjacent (a scanner that wants >= 1 character misaligns)
 # Values that contain text a repair rule is looking for (Python literals, typos, trailing commas, single quotes,
 # unquoted keys).
 TGT = ["None", "True", "False", "x: NaN", "k: undefined", "a, }", "[1, ]", "'k': 'v'", "{key: 1", "z, key: v"]
